@@ -173,9 +173,9 @@ theorem parseInt32_exp (l : Lit) (h : l.WF) (m : Nat) (s d : Bytes) (he : l.ex =
 /-- **completeness of the library's parser on G**: a literal with at least one significant or
 integer digit and exponents within int32 parses to its coefficient and exponent. -/
 theorem newFromString_render (l : Lit) (h : l.WF) (hne : l.tdigits ≠ [])
-    (hr : -2147483648 ≤ l.expVal ∧ l.expVal ≤ 2147483647)
-    (hc : -2147483648 ≤ l.cexp ∧ l.cexp ≤ 2147483647) :
-    newFromString l.render = some ⟨l.coef, l.cexp⟩ := by
+    (hr : -2147483648 ≤ l.expVal ∧ l.expVal ≤ 2147483647) :
+    newFromString l.render =
+      if l.cexp < -2147483648 ∨ l.cexp > 2147483647 then none else some ⟨l.coef, l.cexp⟩ := by
   have hmE := l.mant_noE h
   -- step 1: the exponent split
   have step1 : splitExp l.render = some (l.mant, l.expVal) := by
@@ -219,7 +219,6 @@ theorem newFromString_render (l : Lit) (h : l.WF) (hne : l.tdigits ≠ [])
     simp [Lit.coef, Lit.neg]
   unfold newFromString
   simp only [step1, step2, step3]
-  rw [if_neg (by omega)]
 
 /-! ### the syntax check added by the repair, on literals of G -/
 
@@ -301,17 +300,20 @@ represent): negative → ErrNegativeValue; more than six places in the library's
 exponent beyond int32 after the shift → ErrTooManyDecimals; above MaxInt64 → ErrTooLarge; else the
 droplets `coef · 10^(cexp+6)`. -/
 theorem fromString_render (l : Lit) (h : l.WF) (hne : l.tdigits ≠ [])
-    (hr : -2147483648 ≤ l.expVal ∧ l.expVal ≤ 2147483647)
-    (hc : -2147483648 ≤ l.cexp ∧ l.cexp ≤ 2147483647) :
+    (hr : -2147483648 ≤ l.expVal ∧ l.expVal ≤ 2147483647) :
     fromString l.render =
-      if l.coef < 0 then .err (.named "ErrNegativeValue")
+      if l.cexp < -2147483648 ∨ l.cexp > 2147483647 then .err (.other "decimal")
+      else if l.coef < 0 then .err (.named "ErrNegativeValue")
       else if l.cexp < -6 then .err (.named "ErrTooManyDecimals")
       else if l.cexp > 2147483641 then .err (.named "ErrTooManyDecimals")
       else if l.coef * 10 ^ (l.cexp + 6).toNat > (maxInt64 : Int) then .err (.named "ErrTooLarge")
       else .ok (l.coef * 10 ^ (l.cexp + 6).toNat).toNat := by
   unfold fromString
-  rw [l.render_no_dotSign h, newFromString_render l h hne hr hc]
+  rw [l.render_no_dotSign h, newFromString_render l h hne hr]
   simp only [Bool.false_eq_true, if_false]
+  by_cases hc : l.cexp < -2147483648 ∨ l.cexp > 2147483647
+  · simp [hc]
+  simp only [hc, if_false]
   by_cases h1 : l.coef < 0
   · simp [h1]
   by_cases h2 : l.cexp < -6
